@@ -48,6 +48,17 @@ CLAIMED = {
         'run_gdb argv quoting: bounded stand-in (exhaustive over a small alphabet incl. quote and backslash) - it found a genuine defect, repaired in /repo by a fix: commit.',
    note='parse_args itself (argparse wiring, -f/-b handling) is not yet under contract; clusters with g/r before the last letter are outside the precondition. The quoting clause is bounded, not proved.',
    technique='contract-based deductive verification (loop invariant + unrolled literal loops) plus a bounded native stand-in for the argv quoting; z3'),
+ 'C10': dict(level='proof', design='6.C10',
+   text='connection_got_new_message sends exactly one pause request (and a Stopped-at notice) iff the selection agrees and the breakpoint matcher matches, and never resume/quit; through the verified chain ConnectionManager.message -> ConnectionImpl.message -> controller the registered ui state is paused iff that condition holds; '
+        'Plugin.process_message clears the pause first, so the breakpoint stop() value is exactly that condition for this message; invoke_command runs gdb quit iff quit was requested, else continue iff resume was requested, else nothing (stays halted); resume/quit commands set exactly their flag; '
+        'TerminalUI.run_until_stopped returns only when resumed or quit and issues only prompts.',
+   note='Assumed: disseminator delivery and wiring (ui state registered on the controller, sink = ConnectionManager, command sink = Controller), gdb reaction to stop()/continue/quit, CommandSink.process_command never requests pause (its dispatch is not yet under contract). Liveness (the prompt loop terminates) is not claimed.',
+   technique='contract-based deductive verification with ghost ui/ext traces and wiring cells; z3'),
+ 'C15': dict(level='proof', design='6.C15',
+   text='Plugin.process_message opens a connection in the sink exactly on first sight of its id (role from the get_registry direction), forwards under the message own connection id, leaves other entries untouched and raises nothing but what the sink raises; '
+        'close_connection removes the entry, closes in the sink once and raises for no id (the KeyError for never-seen connections was a genuine defect: found by the check, repaired by a fix: commit); a re-used address is opened again as a new connection by the manager contract (C04).',
+   note='Assumed gdb API (selected_thread, breakpoints). The destroy breakpoint stop() wrapper and connection_id_of are one-liners over the gdb API and not under contract. Thread-mismatch warning: only that it does not raise / change entries.',
+   technique='contract-based deductive verification; native replay of the counterexample; z3'),
 }
 
 NA_REASON = 'not yet built in this session (machinery under construction); see DESIGN.md section 6'
